@@ -228,9 +228,13 @@ def converters(m):
     ]
 
 
-def check_doc(name, md, doc, fails, escape=True):
+def check_doc(name, md, doc, fails, escape=True, filectx=False):
     try:
-        out = md(doc)
+        if filectx:
+            import worker
+            out = worker.convert_file(md, doc)      # Markdown.read of a file next to the include fixtures
+        else:
+            out = md(doc)
     except Exception:  # C01's business
         return False
     rd = Reader()
@@ -261,6 +265,14 @@ def oracle(ctx, extra):
             seen.add(d)
         if "<" not in d and any(u.split(":")[0].lower() in d.lower() for u in ("javascript:", "vbscript:", "file:", "data:")):
             check_doc(noesc[0], noesc[1], d, fails, escape=False)     # URL clause also with escape off
+        if n % 12 == 0:
+            # with a file context: include directives whose targets, encodings and options carry payloads; the included
+            # files themselves hold payloads (text, Markdown with a script URL, an HTML fragment with an event handler)
+            style = r.choice(["fenced", "rst"])
+            name2, md2 = cfgs[0] if style == "fenced" else cfgs[1]
+            d2 = gen_docs.include_doc(r, style, r.choice(PAY))
+            if check_doc(name2 + "+file", md2, d2, fails, filectx=True):
+                n += 1
         if len(fails) >= 5:
             break
     return {"evaluations": n, "distinct_nontrivial": len(seen), "failures": fails,
@@ -269,7 +281,7 @@ def oracle(ctx, extra):
                     "footnote definitions, tables, def lists, math, ruby, spoilers, abbreviations, directive titles/options/"
                     "bodies (fenced and RST), 45% generated documents with words replaced by payloads; output read with "
                     "html.parser: no x9 element, no y9/z9/on* attribute, no script element/comment from a payload, no href/src "
-                    "with a harmful scheme (the latter also with escape=False on documents without raw HTML); every document contains a payload",
+                    "with a harmful scheme (the latter also with escape=False on documents without raw HTML); every document contains a payload; every 12th document is a set of include directives converted with a file context (payloads in targets, encodings, options and in the included files)",
             "samples": [json.dumps(docs[0])[:300]]}
 
 
